@@ -770,6 +770,7 @@ def generate(unit, template_text, repo_root, units_dir=None):
     parsed, gsubs = parse_template(template_text)
     g = Generated()
     cur_props = []
+    used_consts = {}
     for ent in parsed:
         if ent[0] == "text":
             _, ln, line = ent
@@ -1064,7 +1065,40 @@ def generate(unit, template_text, repo_root, units_dir=None):
                           external_body=bool(opts.get("external_body")), file=rel, path=" :: ".join(scopes),
                           src_lines=[start_line, end_line])
         rec["fn"] = fid
+        used_consts.setdefault(rel, set()).update(re.findall(r"\b[A-Z][A-Z0-9_]{2,}\b", orig))
+    _auto_consts(g, repo_root, used_consts)
     return g
+
+
+_SCALAR_TY = r"(?:u8|u16|u32|u64|usize|i8|i16|i32|i64|isize|bool|char)"
+
+
+def _auto_consts(g, repo_root, used):
+    """Rule R-const: a module-level scalar `const NAME: <int|bool|char> = <expr>;` of a source file that an extracted function of that
+    file mentions, and that the template does not already define, is extracted too (verbatim, made pub) - so that a change which
+    introduces a named constant next to a function still yields a verifiable text."""
+    have = g.text()
+    add = []
+    for rel in sorted(used):
+        src = Source.get(repo_root, rel)
+        for m in re.finditer(r"(?m)^(?:pub(?:\([a-z]+\))?\s+)?const\s+([A-Z][A-Z0-9_]*)\s*:\s*(" + _SCALAR_TY + r")\s*=\s*([^;{}\n]+);", src.text):
+            name = m.group(1)
+            if name not in used[rel] or re.search(r"\b(?:const|static)\s+%s\b" % re.escape(name), have) or any(a[0] == name for a in add):
+                continue
+            add.append((name, "pub const %s: %s = %s;" % (name, m.group(2), m.group(3).strip()), rel, src.line_of(m.start())))
+    if not add:
+        return
+    at = None
+    for i in range(len(g.lines) - 1, -1, -1):
+        if re.match(r"^\}\s*//\s*verus!", g.lines[i]):
+            at = i
+            break
+    if at is None:
+        return
+    for (name, text, rel, ln) in add:
+        g.lines.insert(at, text)
+        g.map.insert(at, dict(kind="spec", tline=0, props=[], auto_const="%s:%d" % (rel, ln)))
+        at += 1
 
 
 def scan_trusted(g):
